@@ -114,7 +114,11 @@ class MiscMixin:
         for _ in range(rng.choice([2, 3, 5])):
             ops.append(rng.choice(["initialize", "estimate", "update", "train", "initialize_and_estimate", "plugin",
                                    "guess_regularizing", "test", "average_log_like", "evidence", "bic", "map_label",
-                                   "_Estep"]))
+                                   "_Estep",
+                                   # the caller edits the parameter arrays of the object in place (rescaling an
+                                   # axis, moving a component, replacing one precision): the reported likelihood is
+                                   # the density of the CURRENT parameters
+                                   "rescale_inplace", "shift_inplace", "prec_item", "weights_inplace"]))
         return {"kind": "gmmh", "d": d, "k": k, "full": rng.random() < 0.6, "x": xs, "ops": ops,
                 "niter": rng.choice([1, 2, 5]), "delta": rng.choice([1e-4, 0.0, 0.05]), "ninit": rng.choice([1, 2]),
                 "seed": rng.randrange(10 ** 6)}
@@ -257,6 +261,21 @@ class MiscMixin:
             elif op == "_Estep":
                 if not np.array_equal(g._Estep(x), g.likelihood(x)):
                     fail = "GMM._Estep differs from likelihood"
+            elif op == "rescale_inplace":
+                sc = np.array([[2.0, 0.5, 4.0, 0.25][(c["seed"] + j) % 4] for j in range(d)])
+                P = np.asarray(g.precisions)
+                if full:
+                    P /= np.outer(sc, sc)
+                else:
+                    P /= sc ** 2
+                M = np.asarray(g.means); M *= sc
+            elif op == "shift_inplace":
+                M = np.asarray(g.means); M += 0.75
+            elif op == "prec_item":
+                P = np.asarray(g.precisions)
+                P[0] = (np.eye(d) if full else np.ones(d)) * [0.5, 2.0, 3.0][c["seed"] % 3]
+            elif op == "weights_inplace":
+                W = np.asarray(g.weights); W[:] = W[::-1].copy()
             if fail is None and np.all(np.isfinite(np.asarray(g.precisions, dtype=float))):
                 fail = check_like(g, op)
                 w = np.asarray(g.weights, dtype=float)
